@@ -34,6 +34,12 @@ var c07Text = []string{
 	"\x00", "\x01", "a\x00", "\"\x00\"", "\"\x1f\"", "'\x01'",
 	`"\uD800"`, `"\uDC00"`, `"\uD800x"`, `"\uD800A"`,
 	`'''a''' b '''c''' "`, `{a:1}}`, `[[1]`, `((1)`, `{a:{b:1}`,
+	`1e1_0`, `1.0e-1_0`, `1d1_0`, `1d+1_0`, `1e1__0`, `1e10_`, `1e_10`, `1d-_1`, `1._5`, `1.5_`, `1.__5`,
+	`(.::a)`, `(. ::a)`, `(a.::b)`, `(+::a)`, `.::a`, `{f:.::a}`,
+	// grammar violations inside parts of a symbol table the caller's traversal cannot enter
+	`$ion_symbol_table::{foo:[1,,2]} 1`, `$ion_symbol_table::{symbols:["a",[1 2]]} 1`, `$ion_symbol_table::{foo:[(])]} 1`, `$ion_symbol_table::{foo:{a:}} 1`,
+	`$ion_symbol_table::{foo:[a::]} 1`, `$ion_symbol_table::{foo:[1__0]} 1`, `$ion_symbol_table::{foo:[00]} 1`, `$ion_symbol_table::{foo:[2001-02-30]} 1`,
+	`$ion_symbol_table::{imports:[{name:"a",version:1,max_id:1,foo:(1,2)}]} 1`, `$ion_symbol_table::{symbols:["a"],foo:"\q"} 1`, `$ion_symbol_table::{imports:[{name:"a",version:1,max_id:1},[1 2]]} 1`,
 	`1 /* x`, `1 /*/`, `nul`, `tru`, `fals`, `nana`, `1a`, `1.0a`, `2000-01-01a`, `truefalse`, `null.intx`, `true[`,
 }
 
@@ -66,6 +72,9 @@ var c07Binary = [][]byte{
 	{0x65, 0x80, 0x0F, 0xD0, 0x81, 0x81, 0x98}, {0x66, 0x80, 0x0F, 0xD0, 0x81, 0x81, 0x80, 0xBC}, {0x67, 0x80, 0x0F, 0xD0, 0x81, 0x81, 0x80, 0x80, 0xBC}, {0x64, 0x80, 0x0F, 0xD0, 0x80, 0x81}, {0x64, 0x80, 0x0F, 0xD0, 0x81, 0x80},
 	{0x64, 0x80, 0x0F, 0xD1, 0x82, 0x9D}, {0x63, 0x80, 0x80, 0x81}, {0x53, 0x00, 0x00, 0x00}, {0x51, 0x00},
 	{0x0E}, {0x0E, 0x85, 0x00}, {0x01}, {0xD3, 0x80, 0x01}, {0xB3, 0x01, 0x00},
+	// inside a symbol table: an int overrunning a list in symbols; an invalid tag in open content; an overrun in the name field
+	{0xE7, 0x81, 0x83, 0xD4, 0x87, 0xB2, 0xB1, 0x21, 0x20}, {0xE6, 0x81, 0x83, 0xD3, 0x89, 0xB1, 0xF0, 0x20}, {0xE6, 0x81, 0x83, 0xD3, 0x84, 0xC1, 0x31, 0x20},
+	{0x39, 0, 0, 0, 0, 0, 0, 0, 0, 0}, {0x3D, 0, 0, 0, 0, 0, 0, 0, 0, 0, 0, 0, 0, 0},
 }
 
 func c07SeedDocs() []doc {
@@ -83,6 +92,16 @@ func c07SeedDocs() []doc {
 	for _, t := range catTimestampsSome() {
 		out = append(out, doc{"ts", []*rm.Value{rm.TSV(t), rm.IntV(1)}})
 	}
+	// a symbol table with open content and odd entries: the Reader consumes it itself, so every
+	// edit inside it can only be noticed by the Reader
+	lst := rm.StructV(
+		rm.ListV(rm.IntV(1), rm.StructV(rm.SexpV(rm.SymV("b"), rm.FloatV(1.5)).F("a")), rm.StrV("q\n")).F("foo"),
+		rm.ListV(rm.StructV(rm.StrV("sh").F("name"), rm.IntV(1).F("version"), rm.IntV(1).F("max_id"), rm.SexpV(rm.IntV(1), rm.IntV(2)).F("bar"))).F("imports"),
+		rm.ListV(rm.StrV("s"), rm.ListV(rm.IntV(1), rm.DecV(bigOf(15), -1, false)), rm.StrV("t")).F("symbols"),
+	).A("$ion_symbol_table")
+	out = append(out, doc{"table-with-open-content", []*rm.Value{lst, rm.IntV(1)}})
+	numbers := []*rm.Value{rm.FloatV(1e10), rm.FloatV(2.5e-12), rm.DecV(bigOf(15), 12, false), rm.DecV(bigOf(-7), -30, false)}
+	out = append(out, doc{"exponents", numbers})
 	return out
 }
 
@@ -310,7 +329,7 @@ func init() {
 	mc.Register(&mc.Check{
 		ID:    "C07",
 		Title: "Malformed input ends in an error, and the error is permanent",
-		Rule: "(a) a hand catalogue of ~170 spec-invalid text inputs (unterminated strings/comments/containers/lobs, illegal escapes incl. unpaired surrogates, bad digit grouping, leading zeros, misplaced commas, dangling annotations and field names, keywords as names, operators outside sexps, bad base64, impossible calendar fields/offsets, control characters, junk after keywords) bare and inside a list, and ~85 spec-invalid binary bodies (bool/float/negative-zero/reserved tags, annotation-wrapper shapes, sorted struct forms, overruns, non-UTF-8, impossible timestamps, unterminated VarUInts) at top level, inside a list and before another value; " +
+		Rule: "(a) a hand catalogue of ~200 spec-invalid text inputs (unterminated strings/comments/containers/lobs, illegal escapes incl. unpaired surrogates, bad digit grouping, leading zeros, misplaced commas, dangling annotations and field names, keywords as names, operators outside sexps, bad base64, impossible calendar fields/offsets, control characters, junk after keywords, '_' in exponents, operators as annotations, grammar violations inside the ignored parts of a symbol table) bare and inside a list, and ~90 spec-invalid binary bodies (bool/float/negative-zero/reserved tags, annotation-wrapper shapes, sorted struct forms, overruns, non-UTF-8, impossible timestamps, unterminated VarUInts) at top level, inside a list and before another value; " +
 			"(b) every valid document of a seed corpus (token-class representatives bare / annotated in structs / nested, shapes, timestamps of each precision) in canonical text and binary x EVERY truncation offset, EVERY single-byte deletion and duplication, every insertion of 24 grammar-significant characters at every text position, and 11 byte substitutions at every binary position. " +
 			"An edited input counts only if the independent reference parser/decoder rejects it; then a traversal that enters every container and reads every scalar must end with Err()!=nil, five further Next calls return false and Err() stays the identical error. Edits that yield a valid document are compared value-by-value with the reference instead. " +
 			"non-trivial = reference rejected, reader rejected and stayed rejected; distinct = distinct (edit class, outcome) digests",
